@@ -570,6 +570,7 @@ func (fc *FnCtx) evalCallWith(st *State, call *ast.CallExpr, preRecv *Val, preAr
 	}
 	fc.bumpCall(st, f.Name())
 	if fc.isQuiet(f) && fc.lookupContract(f) == nil {
+		fc.noteTrusted("quiet (no effect on proxy state, unconstrained result): " + funcKey(f, nil))
 		fc.checkCallPre(st, call, f, nil, nil)
 		if f.Name() == "Wait" && fc.root().spawned {
 			// join point: whatever the goroutines spawned by this function did to the heap is visible from here on
@@ -626,10 +627,24 @@ func (fc *FnCtx) evalCallWith(st *State, call *ast.CallExpr, preRecv *Val, preAr
 	}
 	fc.checkCallPre(st, call, f, recv, args)
 	if v, ok := fc.knownLibCall(st, call, f, recv, args); ok {
+		fc.noteTrusted("library model: " + funcKey(f, nil))
 		return v
 	}
 	ct := fc.lookupContract(f)
 	if ct != nil {
+		if ct.Extern {
+			kind := "extern contract (assumed)"
+			if ct.Pure {
+				kind = "extern pure (deterministic function of its arguments, no effect)"
+			} else if ct.Quiet {
+				kind = "extern quiet (no effect on proxy state, unconstrained result)"
+			}
+			note := kind + ": " + ct.Key
+			if ct.Trusted != "" {
+				note += " -- " + ct.Trusted
+			}
+			fc.noteTrusted(note)
+		}
 		return fc.applyContract(st, call, f, ct, recv, args)
 	}
 	// inline a contract-less function whose body we have
@@ -2415,4 +2430,12 @@ func (fc *FnCtx) soleLiteralOf(v *types.Var) *ast.FuncLit {
 		return lit
 	}
 	return nil
+}
+
+func (fc *FnCtx) noteTrusted(s string) {
+	r := fc.root()
+	if r.trusted == nil {
+		r.trusted = map[string]bool{}
+	}
+	r.trusted[s] = true
 }
